@@ -195,8 +195,9 @@ def run(ctx):
     for cid in (["T263"] if quick else ["T263", "T257", "T251"]):
         p, a, b, n, G, h = toy.params(cid)
         rs = list(range(0, n + 4)) + [2 ** n.bit_length() - 1, 2 ** n.bit_length(), 255, 256, 65535]
-        rs = sorted(set(v for v in rs if v < 65536))
-        ss = sorted(set([0, 1, 2, n - 1, n, n + 1, 65535] + [rnd.randrange(1, n) for _ in range(6 if quick else 40)]))
+        lim = 256 ** ((len("%x" % n) + 1) // 2)
+        rs = sorted(set(v for v in rs if v < lim))
+        ss = sorted(set(v for v in [0, 1, 2, n - 1, n, n + 1, lim - 1] + [rnd.randrange(1, n) for _ in range(6 if quick else 40)] if v < lim))
         digests = [b"\x00\x00", bytes([rnd.randrange(256), rnd.randrange(256)]), b"\xff\xff\xff"]
         args = [(cid, d, [dg], True, rs, ss) for d in (1, n - 1, rnd.randrange(2, n - 1)) for dg in digests]
         events = ecdsadrv.run_pool(ecdsadrv.verify_grid_events, args)
